@@ -193,8 +193,9 @@ pub fn run(run: &Run) {
     run.sample(json!({"a": 5, "d": 0x8000_0000u32, "expect": "antipode: only antisymmetry and non-equality"}));
     run.sample(json!({"a": 16777216, "d": 0x7FFF_FFFFu32, "expect": "a<a+d"}));
     run.assume("the domain u32 x u32 is covered on the stated anchor lines (a fixed / d fixed), not on all 2^64 pairs; the functions are value-generic (no branch on magnitudes other than the 2^31 distance test)");
-    if outcomes.load(AO::Relaxed) != 15 {
-        eprintln!("MACHINERY-ERROR C20: not all ordering classes reached");
-        std::process::exit(2);
+    if outcomes.load(AO::Relaxed) != 15 && run.violation_count() == 0 {
+        // vacuity warning (a run that stopped early because of violations reaches fewer classes: not this case)
+        eprintln!("WARNING property=C20 vacuity: not all ordering classes (less / equal / greater / antipode) were reached");
+        run.cap_hit("not all ordering classes reached");
     }
 }
